@@ -73,6 +73,14 @@ CHECKS.update({
         design="3/C12"),
 })
 
+CHECKS.update({
+    "C17": dict(
+        technique="property-based testing: metamorphic oracle - the same IR rendered under two equivalent notations must give byte-identical trees and diagnostics",
+        text="Clean generated documents are rendered twice from one intermediate representation, the second time with drawn choices among equivalent spellings at every applicable position (nullable:true / type list / null member, enum-with-null / oneOf[null, enum], bare $ref / single-element allOf|oneOf|anyOf wrapper), optionally serialised as YAML and fetched from a loopback URL; snapshots and diagnostics must be identical; a differing case is attributed to one rewrite family by re-rendering with one family at a time.",
+        note="rewrites preserve member order and place descriptions where the generator's own normaliser places them; both renderings declare 3.1.0",
+        design="3/C17"),
+})
+
 NOT_YET = {}
 
 def main():
